@@ -86,6 +86,7 @@ func (i *inflight) result() ([]jose.JSONWebKey, error) {
 func (r *remoteKeySet) VerifySignature(ctx context.Context, jws *jose.JSONWebSignature) ([]byte, error) {
 	ctx, span := client.Tracer.Start(ctx, "VerifySignature")
 	defer span.End()
+	verifPoint(ctx, r, "call.start")
 
 	keyID, alg := oidc.GetKeyIDAndAlg(jws)
 	if alg == "" {
@@ -160,6 +161,7 @@ func (r *remoteKeySet) verifySignatureRemote(ctx context.Context, jws *jose.JSON
 func (r *remoteKeySet) keysFromCache() (keys []jose.JSONWebKey) {
 	r.mu.Lock()
 	defer r.mu.Unlock()
+	verifPoint(context.Background(), r, "cache.read", len(r.cachedKeys))
 	return r.cachedKeys
 }
 
@@ -168,6 +170,7 @@ func (r *remoteKeySet) keysFromCache() (keys []jose.JSONWebKey) {
 func (r *remoteKeySet) keysFromRemote(ctx context.Context) ([]jose.JSONWebKey, error) {
 	ctx, span := client.Tracer.Start(ctx, "keysFromRemote")
 	defer span.End()
+	verifPoint(ctx, r, "remote.enter")
 
 	// Need to lock to inspect the inflight request field.
 	r.mu.Lock()
@@ -179,14 +182,19 @@ func (r *remoteKeySet) keysFromRemote(ctx context.Context) ([]jose.JSONWebKey, e
 		// request. It releases the resource by nil'ing the inflight field
 		// once the goroutine is done.
 		go r.updateKeys(ctx)
+		verifPoint(ctx, r, "inflight.create")
 	}
 	inflight := r.inflight
+	verifPoint(ctx, r, "inflight.join", inflight)
 	r.mu.Unlock()
+	verifPoint(ctx, r, "wait.enter")
 
 	select {
 	case <-ctx.Done():
+		verifPoint(ctx, r, "wait.cancelled")
 		return nil, ctx.Err()
 	case <-inflight.wait():
+		verifPoint(ctx, r, "wait.done")
 		return inflight.result()
 	}
 }
@@ -195,10 +203,13 @@ func (r *remoteKeySet) updateKeys(ctx context.Context) {
 	ctx, span := client.Tracer.Start(ctx, "updateKeys")
 	defer span.End()
 
+	verifPoint(ctx, r, "fetch.start", r.inflight)
 	// Sync keys and finish inflight when that's done.
 	keys, err := r.fetchRemoteKeys(ctx)
+	verifPoint(ctx, r, "fetch.end", r.inflight, err, len(keys))
 
 	r.inflight.done(keys, err)
+	verifPoint(ctx, r, "signal", r.inflight)
 
 	// Lock to update the keys and indicate that there is no longer an
 	// inflight request.
@@ -209,6 +220,7 @@ func (r *remoteKeySet) updateKeys(ctx context.Context) {
 		r.cachedKeys = keys
 	}
 
+	verifPoint(ctx, r, "commit", r.inflight, err == nil, len(r.cachedKeys))
 	// Free inflight so a different request can run.
 	r.inflight = nil
 }
